@@ -97,6 +97,8 @@ def build(tier="quick", seed=0):
         no_raise(b, fn, paths, pre)
 
     call_sites(b)
+    dual_call_site(b)
+    b.replayer("*::ensures:*", lambda ob, res: replay(dict(obligation=ob.oid)))
     b.assume("heating_i = Mhost_i (n dU/dM_i - Omega_i dU/dOmega_i) is the C10 postcondition of the mode collapse; used here as a hypothesis")
     b.assume("at zero obliquity dU/dw = dU/dOmega (C10 key fact: only m = l-2p terms survive)")
     b.assume("angular-momentum clause excludes the sliver 0 < |n a^2 e| <= 2^-52 where the code returns de/dt = 0 by design")
@@ -187,3 +189,141 @@ def call_sites(b):
         return sp.Eq(G * tm * hm / (2 * a_ ** 2) * da + moi * Om * dsp, -heating)
     ensure(b, fr, "energy_balance", paths, goal, pre,
            clause="ensures d/dt E_orb + C Omega dOmega/dt == -heating for the values stored in the result dict (per unit scale)")
+
+
+def dual_call_site(b):
+    """quick_dual_body_tidal_dissipation executed as a whole, every callee by contract: the per-world calculator returns
+    dUdM, dUdw, dUdO and a heating that satisfies the C10 identity FOR THE HOST MASS AND SPIN IT WAS CALLED WITH; the
+    statement's energy balance is then required of the values stored in the result dict."""
+    from tpv.symex import Exec, SymExError
+    fn = Fn(FQ, "quick_dual_body_tidal_dissipation")
+    b.add_fn(fn)
+    m0, m1, C0, C1, O0, O1, nn, ecc = [R(x) for x in ("mass_0", "mass_1", "moi_0", "moi_1", "spin_0", "spin_1", "orbital_frequency", "eccentricity")]
+    sc = [R(x) for x in ("da_dt_scale", "de_dt_scale", "dspin_dt_scale")]
+    pre = [sp.Gt(x, 0) for x in (m0, m1, C0, C1, nn, G)] + [sp.Ge(ecc, 0), sp.Lt(ecc, 1)] + [sp.Gt(x, 0) for x in sc]
+    calls = []
+
+    def qtd_result(host_mass, **kw):
+        i = len(calls)
+        r = dict(tidal_heating=R(f"heating_{i}"), dUdM=R(f"dUdM_{i}"), dUdw=R(f"dUdw_{i}"), dUdO=R(f"dUdO_{i}"))
+        calls.append((host_mass, kw, r))
+        return r
+
+    def qtd_ensures(res, host_mass, **kw):
+        Om = kw.get("spin_frequency")
+        return [sp.Eq(res["tidal_heating"], host_mass * (kw["orbital_frequency"] * res["dUdM"] - Om * res["dUdO"]))]
+
+    class KwContract(Contract):
+        pass
+    qtd = Contract("quick_tidal_dissipation", None, None)
+
+    def call_qtd(ex, node, host_mass, **kw):
+        res = qtd_result(host_mass, **kw)
+        for f in qtd_ensures(res, host_mass, **kw):
+            ex.facts.append(f)
+        return res
+
+    def c_dual():
+        def requires(a_, n_, e_, mA, dMA, dwA, mB, dMB, dwB):
+            return [("Kepler III n^2 a^3 == G(M1+M2)", sp.Eq(n_ ** 2 * a_ ** 3, G * (mA + mB))), ("a > 0", sp.Gt(a_, 0))]
+
+        def ensures(res, a_, n_, e_, mA, dMA, dwA, mB, dMB, dwB):
+            return [sp.Eq(G * mA * mB / (2 * a_ ** 2) * res[0], -(mB * n_ * dMA + mA * n_ * dMB))]
+        return Contract("semia_eccen_derivatives_dual", requires, ensures, result=lambda *x: (fresh("da_dt"), fresh("de_dt")))
+
+    def c_spin():
+        return Contract("spin_rate_derivative", lambda d, C_, M_: [("C > 0", sp.Gt(C_, 0))], lambda res, d, C_, M_: [sp.Eq(C_ * res, M_ * d)])
+    opaque = lambda name: (lambda ex, node, *a, **k: R(name))
+    genv = dict(quick_tidal_dissipation=call_qtd, find_mode_manipulators=lambda ex, node, **k: (opaque("ttfc"), opaque("cmf"), opaque("eccentricity_results"), opaque("inclin")),
+                IncorrectArgumentType="IncorrectArgumentType", ArgumentException="ArgumentException", MissingArgumentError="MissingArgumentError")
+    args = dict(radii=(R("R_0"), R("R_1")), masses=(m0, m1), gravities=(R("g_0"), R("g_1")), densities=(R("rho_0"), R("rho_1")), mois=(C0, C1),
+                viscosities=(R("eta_0"), R("eta_1")), shear_moduli=(R("mu_0"), R("mu_1")), rheologies="Maxwell", obliquities=None,
+                spin_frequencies=(O0, O1), eccentricity=ecc, orbital_frequency=nn, da_dt_scale=sc[0], de_dt_scale=sc[1], dspin_dt_scale=sc[2])
+    ex = Exec(fn, pre=pre, globals_env=genv, contracts=dict(orbital_motion2semi_a=orbital_motion2semi_a_contract(), semia_eccen_derivatives_dual=c_dual(),
+                                                             spin_rate_derivative=c_spin()))
+    try:
+        paths = ex.run(args)
+    except SymExError as e:
+        b.subset_exits.append(f"{fn.key}: {e}")
+        return
+    b.absorb_exec(ex)
+    ret = [p for p in paths if p.outcome == "return"]
+    if len(ret) != 1:
+        b.subset_exits.append(f"{fn.key}: {len(ret)} returning paths of {len(paths)}")
+        return
+    p = ret[0]
+    d = p.value
+    a_ = p.env["semi_major_axis"]
+    ok = len(calls) == 2 and isinstance(d, dict) and "host" in d and "secondary" in d
+    ground(b, f"{fn.key}::two_worlds", fn.key, "the per-world calculator is called once per world and both results are stored", ok)
+    if not ok:
+        return
+    # what the callee was told: world i is perturbed by the OTHER body's mass, spins bound per world
+    (h0, kw0, r0), (h1, kw1, r1) = calls
+    b.add(Obligation(oid=f"{fn.key}::ensures:perturber_masses", fn=fn.key, clause="world 0 (host) is computed with the secondary's mass as tide raiser, world 1 with the host's; each with its own mass, moment of inertia and spin",
+                     goal=sp.And(sp.Eq(h0, m1), sp.Eq(h1, m0), sp.Eq(kw0["target_mass"], m0), sp.Eq(kw1["target_mass"], m1), sp.Eq(kw0["spin_frequency"], O0), sp.Eq(kw1["spin_frequency"], O1),
+                                 sp.Eq(kw0["target_moi"], C0), sp.Eq(kw1["target_moi"], C1)), hyps=pre + p.hyps))
+    da = d["semi_major_axis_derivative"] / sc[0]
+    ds0 = d["host"]["spin_rate_derivative"] / sc[2]
+    ds1 = d["secondary"]["spin_rate_derivative"] / sc[2]
+    heat = d["host"]["tidal_heating"] + d["secondary"]["tidal_heating"]
+    b.add(Obligation(oid=f"{fn.key}::ensures:energy_balance", fn=fn.key,
+                     clause="ensures d/dt E_orb + sum_i C_i Omega_i dOmega_i/dt == -(heating_host + heating_secondary) for the values stored in the result dict",
+                     goal=sp.Eq(G * m0 * m1 / (2 * a_ ** 2) * da + C0 * O0 * ds0 + C1 * O1 * ds1, -heat), hyps=pre + p.hyps))
+    b.add(Obligation(oid=f"{fn.key}::ensures:torque_balance", fn=fn.key,
+                     clause="ensures C_i dOmega_i/dt == M_perturber_i dU/dOmega_i for both worlds (spin angular momentum)",
+                     goal=sp.And(sp.Eq(C0 * ds0, m1 * d["host"]["dUdO"]), sp.Eq(C1 * ds1, m0 * d["secondary"]["dUdO"])), hyps=pre + p.hyps))
+
+
+_NATIVE_BUDGET = r'''
+import numpy as np
+from TidalPy.toolbox.quick_tides import quick_tidal_dissipation, quick_dual_body_tidal_dissipation
+from TidalPy.utilities.conversions import orbital_motion2semi_a
+G = 6.6743e-11
+cfg = args
+out = {}
+M0, M1 = 1.9e27, 8.9e22
+R0, R1 = 7.0e7, 1.8e6
+C0, C1 = 0.25 * M0 * R0**2, 0.38 * M1 * R1**2
+n = 4.1e-5
+e = cfg.get("e", 0.1)
+O0, O1 = 1.76e-4, 6.0e-5
+a = orbital_motion2semi_a(n, M0, M1)
+def budgets(da, de, spins, heats, torque_pairs):
+    dE = G * M0 * M1 / (2 * a**2) * da + sum(C * O * dO for (C, O, dO) in spins)
+    s = np.sqrt(1 - e * e)
+    beta = M0 * M1 / (M0 + M1)
+    dL = beta * n * a**2 * (s / (2 * a) * da - (e / s) * de) + sum(C * dO for (C, O, dO) in spins)
+    scaleE = abs(G * M0 * M1 / (2 * a**2) * da) + sum(abs(C * O * dO) for (C, O, dO) in spins) + abs(sum(heats)) + 1e-300
+    scaleL = abs(beta * n * a * s / 2 * da) + abs(beta * n * a**2 * (e / s) * de) + sum(abs(C * dO) for (C, O, dO) in spins) + 1e-300
+    return {"energy_residual_rel": float(abs(dE + sum(heats)) / scaleE), "angmom_residual_rel": float(abs(dL) / scaleL)}
+kw = dict(viscosities=(1e20, 1e17), shear_moduli=(5e10, 5e10), rheologies="maxwell", eccentricity=e, orbital_frequency=n, spin_frequencies=(O0, O1),
+          max_tidal_order_l=2, eccentricity_truncation_lvl=6, use_obliquity=False)
+d = quick_dual_body_tidal_dissipation((R0, R1), (M0, M1), (G * M0 / R0**2, G * M1 / R1**2), (M0 / (4.19 * R0**3), M1 / (4.19 * R1**3)), (C0, C1), **kw)
+h, s_ = d["host"], d["secondary"]
+out["dual"] = budgets(float(d["semi_major_axis_derivative"]), float(d["eccentricity_derivative"]),
+                      [(C0, O0, float(h["spin_rate_derivative"])), (C1, O1, float(s_["spin_rate_derivative"]))],
+                      [float(h["tidal_heating"]), float(s_["tidal_heating"])], None)
+r = quick_tidal_dissipation(M0, R1, M1, G * M1 / R1**2, M1 / (4.19 * R1**3), C1, viscosity=1e17, shear_modulus=5e10, rheology="maxwell", eccentricity=e,
+                            orbital_frequency=n, spin_frequency=O1, max_tidal_order_l=2, eccentricity_truncation_lvl=6, use_obliquity=False, calculate_orbit_spin_derivatives=True)
+out["single"] = budgets(float(r["semi_major_axis_derivative"]), float(r["eccentricity_derivative"]), [(C1, O1, float(r["spin_rate_derivative"]))], [float(r["tidal_heating"])], None)
+r0 = quick_tidal_dissipation(M0, R1, M1, G * M1 / R1**2, M1 / (4.19 * R1**3), C1, viscosity=1e17, shear_modulus=5e10, rheology="maxwell", eccentricity=0.0,
+                             orbital_frequency=n, spin_frequency=O1, max_tidal_order_l=2, eccentricity_truncation_lvl=6, use_obliquity=False, calculate_orbit_spin_derivatives=True)
+out["de_dt_at_e0"] = float(r0["eccentricity_derivative"])
+result = out
+'''
+
+
+def replay(doc):
+    """native replay for C11: energy and angular-momentum budgets of the quick calculators at a concrete unequal-mass, eccentric, non-synchronous state"""
+    from tpv import native
+    r = native.run(dict(code=_NATIVE_BUDGET, args={}), timeout=900)
+    rec = dict(replayed=True, native=r)
+    if "result" not in r:
+        rec["confirmed"] = True
+        rec["why"] = "real code raised / crashed"
+        return rec
+    v = native.unc(r["result"])
+    bad = any(v[k][q] > 1e-9 for k in ("dual", "single") for q in ("energy_residual_rel", "angmom_residual_rel")) or v["de_dt_at_e0"] != 0.0
+    rec["confirmed"] = bool(bad)
+    return rec
